@@ -70,8 +70,8 @@ PROPS = {
         "Coq proof by invariant over the whole control flow of the solver model (levels monotone in global indices; every dated derivation justified by its cause; correctness of the satisfier search; the conflict incompatibility stays satisfied along the rule of resolution) + C01 + C06; exploration with a reachability checker on every Ok result, tied to the model by correspondence",
         "3 Coq theorems (Props/Properties_C04.v; Proofs/SolverReach1/2/.v ~1500 lines): for every lawful VersionSet, every registry with well-formed dependency sets, every provider trace that agrees with the registry and every fuel: if the model of resolve returns Ok(sol) then every selected package is the root or reachable from the root through the dependencies (as the registry gives them) of the SELECTED versions; equivalently every selected package other than the root is a dependency of some selected version (no orphan, e.g. one required only by a version that was backtracked away - the non-vacuity example is such a run). Proof: the solution restricted to the reachable packages is again a solution (C01); an unreachable selected package with the earliest first positive derivation would make that restriction violate the cause of the derivation, contradicting the validity of every stored incompatibility (C06). Oracle: every Ok result of the case stream is checked for reachability."),
     "C05": solver_prop("Props/Properties_C05.v", "other",
-        "exploration under catch_unwind and a call budget (debug assertions and overflow checks on), every panic site of the source is an explicit outcome of the Coq model",
-        "Coq (4 theorems, Props/Properties_C05.v): with a provider whose choose_version answers inside the offered set the model never returns Failure (the 'no term' failure is excluded for any trace); building the derivation tree never fails. Termination is not provable with the available effort (section 10), and the unreachability of the panic sites is only partly proved (see DESIGN 13). The model has one Panic outcome per panic!/unwrap/expect/unreachable!/debug_assert site and the two Failure returns; the harness (built with debug-assertions and overflow-checks) runs every case under catch_unwind with a 20000-call budget: any panic, Failure or budget exhaustion on a fault-free well-behaved run is a violation; degenerate registries (root without versions, empty sets, unknown packages, cycles, self-dependencies, unavailable versions) are generated on purpose."),
+        "Coq proof of panic-freedom and no-Failure by a state invariant over the whole control flow of the solver model (all 19 panic sites) + exploration under catch_unwind, a call budget and a watchdog (debug assertions and overflow checks on); TERMINATION is not proved",
+        "9 Coq theorems (Props/Properties_C05.v; Proofs/SolverNoPanic1/2/.v ~2100 lines, SolverProto2.v, SolverShared.v): for every lawful VersionSet WITH ATOMIC SINGLETONS (extra law: over the semantic universe a singleton contains only the point of its version; proved for Range<V> and the bitset, and proved NECESSARY: atomic_singletons_needed_refuted exhibits a VersionSet satisfying all other laws on which the model panics), every well-formed registry, every trace that agrees with it and every fuel: the model of resolve never reaches any of its 19 Panic outcomes (one per panic!/unwrap/expect/unreachable!/debug_assert! site of the source) and never returns Failure('no term'); if choose_version answers inside the offered set it never returns Failure at all, and without error answers the outcome is Ok, NoSolution, out-of-fuel, or 'the trace is not a run of the model'. Building the derivation tree never fails. WHY THE LEVEL IS NOT 'proof': termination ('after a bounded number of provider calls', 'does not loop forever') is not proved - the model runs on fuel and OOutOfFuel is not excluded (DESIGN section 10) - and arithmetic overflow is outside the model (unbounded nat); both are decided by exploration: every case runs under catch_unwind with a 20000-call budget and a 5 s watchdog (a loop without provider calls is reported as (hang)), built with debug-assertions and overflow-checks; degenerate registries (root without versions, empty sets, unknown packages, cycles, self-dependencies, unavailable versions) are generated on purpose."),
     "C06": solver_prop("Props/Properties_C06.v", "proof",
         "Coq proof by invariant over the solver model: every store entry is justified by its kind and valid (external constructors, merged dependents, rule of resolution), preserved by unit propagation, conflict resolution, backtracking and the main loop",
         "7 Coq theorems: for every lawful VersionSet, registry, well-behaved trace and fuel, every incompatibility in the model's store (external, merged, learned, intermediate prior causes; runs ending in Ok, NoSolution, errors or cut short) is valid: no solution makes all its terms true. Tie: full-trace correspondence; oracle: validity of every store entry of the replayed run against all solutions of the registry (complete enumeration on small registries).",
@@ -85,9 +85,9 @@ PROPS = {
         "Coq proof: structural protocol scanner over the consumed trace + queue and non-emptiness invariants of the solver model; protocol checker on every recorded callback trace of the implementation",
         "8 Coq theorems (Props/Properties_C12.v; Proofs/SolverProtocol.v, SolverQueue2.v, SolverProto2.v), all clauses of the property for the model of resolve, for ANY fuel: the calls the model consumes are accepted by the protocol scanner `shape` (any trace): should_cancel is the first call and occurs between any two choose_version calls; get_dependencies(p, v) only immediately after the choose_version(p, .) that returned v; at most once per (p, v); and, for every lawful VersionSet and every trace whose dependency answers carry well-formed sets: the set of each choose_version(p, set) call is the set of the LAST prioritize call for p and is NOT EMPTY; the FIRST choose_version call is for the root with the singleton set of the requested version, preceded by exactly one should_cancel and one prioritize call. Tie: the model replays every recorded trace (it refuses any call it would not make itself), and the protocol checker of the harness checks all clauses on the implementation's own trace.",
         domains=("solver", "faults")),
-    "C13": solver_prop("Props/Properties_C13.v", "other",
-        "fault enumeration: every position of the fault-free trace, every callback kind, plus out-of-set answers; compared with the Coq model",
-        "Coq (5 theorems): the result is a function of the consumed prefix of the answers; error outcomes are explained by an error answer of the matching callback; an error answer is the LAST call of the run (nothing follows it among the consumed calls) and the outcome is then the matching error carrying the queried package and version. Exploration: for each base run a fault is injected at every index of its callback trace (error at should_cancel / choose_version / get_dependencies; out-of-set version at choose_version): the faulty trace must equal the fault-free one up to the fault, stop there, and the result must be the matching error variant with the same payload (package and version for get_dependencies) or Failure for an out-of-set version; the model reproduces each faulty run. Coq (2 theorems, Props/Properties_C13.v): the model's result is a function of the consumed trace prefix (no further call matters once the outcome is determined) and every error outcome is explained by an error answer of the matching callback with the same package and version (or an out-of-set answer for Failure).",
+    "C13": solver_prop("Props/Properties_C13.v", "proof",
+        "Coq proof: the run is a function of the consumed answers; error answers are last and determine the outcome; two-run fault-injection theorem; + fault enumeration on the implementation: every position of the fault-free trace, every callback kind, plus out-of-set answers",
+        "10 Coq theorems (Props/Properties_C13.v; Proofs/SolverTrace.v, SolverFaults.v, SolverInject.v), for any VersionSet operations with a correct equality, any fuel: the result is a function of the consumed prefix of the provider's answers; an error outcome is only returned because of an error answer of that very callback; an error answer is the LAST call of the run and the outcome is then the matching error carrying the queried package and version; FAULT INJECTION (two runs): if the fault-free run made the call that e answers, the run that receives a faulty answer to that same call (an error; for choose_version also a version outside the offered set) makes exactly the same calls with the same answers up to that point, then that call, and stops with ErrorInShouldCancel / ErrorChoosingPackageVersion / ErrorRetrievingDependencies(p, v) / Failure, whatever would have followed; a consumed out-of-set choose_version answer is the last call and the outcome is Failure, never a solution. Exploration: for each base run a fault is injected at every index of its callback trace (error at should_cancel / choose_version / get_dependencies; out-of-set version at choose_version): the faulty trace must equal the fault-free trace up to the fault, end there, and the result must be the matching error variant (with the queried package and version) resp. Failure; the Coq model must reproduce every faulty run.",
         domains=("faults",)),
     "C14": solver_prop("Props/Properties_C14.v", "proof",
         "Coq proof by two invariants over the solver model (changed-index bookkeeping of partial_solution.rs; every non-deciding continuation re-queues the picked package) + per-decision check on the decision log of every replayed run",
